@@ -144,6 +144,37 @@ theorem timepoints_step_rule (ppf cdf : Nat → α → α) (ps : List α) (sep :
       t ∈ tset ∨ ∃ p ∈ ps, sep < minAbsDist p (tset.map (cdf i)) ∧ t = ppf i p :=
   tpStep_mem ppf cdf ps sep tset i t
 
+/-- **Quantile coverage** ("no more than `max_sep` of a quantile apart"): if each row's `cdf` inverts
+its `ppf` on the percentiles, then on the final grid every percentile of every row `3 ≤ i < max_tips`
+is within `max_sep` (measured in that row's cdf) of some grid point. -/
+theorem timepoints_coverage (ppf cdf : Nat → α → α) (ps : List α) (sep : α) (maxTips : Nat)
+    (hsep : 0 ≤ sep) (hps : ps ≠ [])
+    (hinv : ∀ i, 3 ≤ i → i < maxTips → ∀ p ∈ ps, cdf i (ppf i p) = p)
+    (i : Nat) (hi3 : 3 ≤ i) (hi : i < maxTips) :
+    ∀ p ∈ ps, minAbsDist p ((createTimepoints ppf cdf ps sep maxTips).map (cdf i)) ≤ sep := by
+  intro p hp
+  have hmem : i ∈ List.range' 3 (maxTips - 3) := by
+    simp only [List.mem_range'_1]; omega
+  have hne0 : ps.map (ppf 2) ≠ [] := by simpa using hps
+  have hcov := foldl_tpStep_coverage ppf cdf ps sep hsep (List.range' 3 (maxTips - 3))
+    (fun j hj => by
+      have := List.mem_range'_1.mp hj
+      exact hinv j (by omega) (by omega))
+    (ps.map (ppf 2)) hne0 i hmem p hp
+  have hne : (tpUnsorted ppf cdf ps sep maxTips).map (cdf i) ≠ [] := by
+    intro h
+    have h' : tpUnsorted ppf cdf ps sep maxTips = [] := by simpa using h
+    have hpre := foldl_tpStep_prefix ppf cdf ps sep (List.range' 3 (maxTips - 3)) (ps.map (ppf 2))
+    unfold tpUnsorted at h'
+    rw [h'] at hpre
+    exact hne0 (List.prefix_nil.mp hpre)
+  refine le_trans (minAbsDist_mono p _ _ hne ?_) hcov
+  intro x hx
+  obtain ⟨t, ht, rfl⟩ := List.mem_map.mp hx
+  refine List.mem_map.mpr ⟨t, ?_, rfl⟩
+  unfold createTimepoints
+  exact List.mem_cons_of_mem _ ((List.mergeSort_perm _ _).mem_iff.mpr ht)
+
 end Timepoints
 
 section Nodes
